@@ -139,6 +139,16 @@ CHECKS = {
         note="Trusted: TLC, the message parsing in lib/checks/c17.py; the programs are fixed families, not enumerated by TLC.",
         technique="TLA+ code table (Codes.tla) + trace specification (DiagTrace.tla): traces of real runs validated by TLC",
         design="5/C17"),
+    "C15": dict(
+        text="TLC checks that the left-to-right scanner model (one state per position class, remembering the last complete argument followed by a "
+             "blank) recognises exactly the documented grammar (declarative L1: keyword after // and blanks, followed by end or blank, longest "
+             "well-formed argument followed by end or blank, tail ignored) on every line `opener pre keyword rest` with rest over 12 character "
+             "classes up to length 4 (quick) / 5 (thorough), for all seven keywords and near-keywords; every line up to length 3 / 4 and every "
+             "(keyword, placement) pair of 18 placements is written into generated Go files, read back by the real annotationreader / ignorereader "
+             "and compared field by field.",
+        note="Trusted: TLC, lib/gen_grammar.py (fixed representatives per character class). Trailing comma and digit-leading names are not compared.",
+        technique="TLA+ model (Grammar.tla) checked by TLC; exhaustive replay of bounded comment lines and placements into the real readers",
+        design="5/C15"),
 }
 
 NOT_YET = "check not built yet in this session; the property is in scope of the TLA+ specification (see DESIGN.md section 5) and will be claimed when its replay binding is in place"
